@@ -65,7 +65,7 @@ ENGINES = [
 
 PROPS = {
     "C15": dict(
-        module="Flussab.Props.C15", engines=[("comb", 0, 0, "")], release=True, exhaustive=True,
+        module="Flussab.Props.C15", modules=["Flussab.Props.C15", "Flussab.Props.TieParsed"], engines=[("comb", 0, 0, "")], release=True, exhaustive=True,
         claim="Every clause of the property is a Lean theorem about the combinator model, for arbitrary value/error "
               "types and arbitrary closures ('runs iff' = invocation count). The model is tied to parser.rs by "
               "running all 58 points of the finite domain (combinator x input case x closure behaviour) on the real "
